@@ -129,6 +129,8 @@ package combinator
 //@   assigns  like parsley.Parser.Parse(nil, ctx, lrc, pos)
 //@ loop 1 (k rangeindex, rest ast.NodeList)
 //@   invariant 0 <= k && k <= len(rest)
+//@   invariant [hint-nalts] parsley.NAlts(parsley.Node(rest)) == len(rest)
+//@   invariant [hint-alts] forall j int :: 0 <= j && j < len(rest) ==> same(parsley.Alt(parsley.Node(rest), j), rest[j])
 //@   invariant seqOK(s, ctx) && len(s.nodes) >= old(len(s.nodes)) && depth <= len(s.nodes) && parsley.WfCtx(ctx) && parsley.WfCache(ctx) && seqGhost(ctx)
 //@   invariant same(s.parserLookUp, old(s.parserLookUp)) && same(s.lenCheck, old(s.lenCheck)) && same(s.resultHandler, old(s.resultHandler)) && s.token == old(s.token) && same(s.interpreter, old(s.interpreter))
 //@   invariant [rest] forall j int :: k <= j && j < len(rest) ==> validSeqNode(rest[j]) && pos <= rest[j].ReaderPos()
